@@ -13,6 +13,7 @@ class Unit:
     header = "From Verif Require Import Vec."
     check_fn = "check"
     tag_fn = "tag"
+    exact_fn = None                    # model-side test that the case is float-exact (DESIGN 3.2)
     shard = 300
 
     def gen(self, g, tier):            # -> list of JSON-able cases
@@ -89,6 +90,16 @@ def run_unit(rep, unit, cases, scratch, oracle_on_all=True):
                 oracle_fail += 1
                 rep.failure(unit.key(c, r), msg, {"kind": "oracle", "unit": unit.name, "case": c, "impl": r, "what": msg})
     info["oracle_failures"] = oracle_fail
+    info["discarded_inexact"] = 0
+    if failing and unit.exact_fn:
+        # a mismatch on a case whose exact result is not a binary64 number is a generator slip (the float
+        # run was necessarily rounded), not a code/model difference: discard it, and count it
+        ex = common.eval_bools(unit.header, unit.exact_fn, [terms[i] for i in failing[:200]], scratch,
+                               name="exact_" + unit.name)
+        if ex is not None and len(ex) == len(failing[:200]):
+            keep = [i for i, e in zip(failing[:200], ex) if e] + failing[200:]
+            info["discarded_inexact"] = len(failing) - len(keep)
+            failing = keep
     info["mismatches"] = len(failing)
     if not failing:
         rep.cov["discharged"] += 1
